@@ -60,7 +60,7 @@ func streamForward(rep *Report, tier string, seed uint64) {
 			verbs = append(verbs, "世", "é", "‹")
 			widths := []string{"", "0", "1", "7", "12", "1000", "*", "*0", "*-"}
 			precs := []string{"", ".0", ".1", ".5", ".*"}
-			operands := []interface{}{true, 42, -7, uint8(200), 3.25, complex(1, -2), "str", []byte("by"), 'x', errors.New("e"), strg{"s"}, nil, []int{1, 2}, map[string]int{"a": 1}, struct{ A int }{3}, &intCell}
+			operands := []interface{}{true, 42, -7, uint8(200), 3.25, complex(1, -2), "str", []byte("by"), []byte{}, []byte(nil), 'x', errors.New("e"), strg{"s"}, nil, []int{1, 2}, map[string]int{"a": 1}, struct{ A int }{3}, &intCell, [2]byte{1, 2}, MyStr("ms")}
 			for m := 0; m < 32; m++ {
 				fl := ""
 				for i, f := range "+-# 0" {
@@ -199,16 +199,32 @@ func streamForward(rep *Report, tier string, seed uint64) {
 							}
 							// (2) wrappers are transparent under the standard fmt
 							if vb != "T" && vb != "p" && vb != "w" {
-								op := operands[(vi+m)%len(operands)]
-								a1 := append(append([]interface{}{}, star...), op)
-								a2 := append(append([]interface{}{}, star...), redact.Safe(op))
-								a3 := append(append([]interface{}{}, star...), redact.Unsafe(op))
-								want := fmt.Sprintf(d, a1...)
-								if got := fmt.Sprintf(d, a2...); got != want {
-									orc = append(orc, fmt.Sprintf("C14:fmt.Sprintf(%q, Safe(x))=%q, for x %q", d, got, want))
+								// every operand kind for directives without width and precision (the bare ones are
+								// where a forwarding shortcut would sit), one operand per directive otherwise
+								ops := []interface{}{operands[(vi+m)%len(operands)]}
+								if w == "" && p == "" {
+									ops = operands
 								}
-								if got := fmt.Sprintf(d, a3...); got != want {
-									orc = append(orc, fmt.Sprintf("C14:fmt.Sprintf(%q, Unsafe(x))=%q, for x %q", d, got, want))
+								for _, op := range ops {
+									a1 := append(append([]interface{}{}, star...), op)
+									a2 := append(append([]interface{}{}, star...), redact.Safe(op))
+									a3 := append(append([]interface{}{}, star...), redact.Unsafe(op))
+									want := fmt.Sprintf(d, a1...)
+									if got := fmt.Sprintf(d, a2...); got != want {
+										orc = append(orc, fmt.Sprintf("C14:fmt.Sprintf(%q, Safe(x))=%q, for x %q", d, got, want))
+									}
+									if got := fmt.Sprintf(d, a3...); got != want {
+										orc = append(orc, fmt.Sprintf("C14:fmt.Sprintf(%q, Unsafe(x))=%q, for x %q", d, got, want))
+									}
+								}
+								if m == 0 && w == "" && p == "" && vb == "v" {
+									// the print family of the standard fmt
+									for _, op := range operands {
+										if fmt.Sprint(redact.Safe(op)) != fmt.Sprint(op) || fmt.Sprint(redact.Unsafe(op)) != fmt.Sprint(op) ||
+											fmt.Sprintln(redact.Safe(op), redact.Unsafe(op)) != fmt.Sprintln(op, op) {
+											orc = append(orc, fmt.Sprintf("C14:fmt.Sprint/Sprintln of Safe(x)/Unsafe(x) differ from x for x %v", op))
+										}
+									}
 								}
 							}
 							emit(Case{Real: d, Oracle: orc, Nontriv: true, Kind: "directive"})
